@@ -34,12 +34,9 @@ variable [Add K] [Sub K] [Mul K] [Div K] [Neg K] [Zero K] [One K] [IntCast K]
 /-! ### the clean-up of the `vects` setter -/
 
 @[inline] def absK (x : K) : K := if x < 0 then -x else x
-@[inline] def maxK (a b : K) : K := if a < b then b else a
 
 /-- `abs(self.__vects).max()`. -/
-def maxAbs (v : M3 K) : K :=
-  maxK (maxK (maxK (maxK (maxK (maxK (maxK (maxK (absK v.r0.x) (absK v.r0.y)) (absK v.r0.z))
-    (absK v.r1.x)) (absK v.r1.y)) (absK v.r1.z)) (absK v.r2.x)) (absK v.r2.y)) (absK v.r2.z)
+def maxAbs (v : M3 K) : K := maxOf 0 (v.toList.map absK)
 
 /-- one entry of `vects[np.isclose(vects / abs(vects).max(), 0.0, atol=1e-9)] = 0.0`:
     `isclose(a, 0, atol)` is `|a - 0| <= atol + rtol*|0| = atol`. -/
